@@ -2,6 +2,7 @@ package main
 
 import (
 	"fmt"
+	"os"
 	"strings"
 )
 
@@ -197,12 +198,22 @@ func (ex *Exec) mergeHeapVal(c *Term, a, b Value) (Value, bool) {
 }
 
 func (ex *Exec) mergePair(a, b *State) (*State, bool) {
+	m, why := ex.mergePair2(a, b)
+	if m == nil && debugMerge {
+		fmt.Fprintf(os.Stderr, "merge failed: %s at %s\n", why, ex.site(a.thread().top()))
+	}
+	return m, m != nil
+}
+
+var debugMerge = os.Getenv("GOSYM_DEBUG_MERGE") != ""
+
+func (ex *Exec) mergePair2(a, b *State) (*State, string) {
 	if len(a.threads) != len(b.threads) || len(a.nondets) != len(b.nondets) {
-		return nil, false
+		return nil, "r1"
 	}
 	for i := range a.nondets {
 		if a.nondets[i].T != b.nondets[i].T {
-			return nil, false
+			return nil, "r2"
 		}
 	}
 	k := 0
@@ -213,7 +224,7 @@ func (ex *Exec) mergePair(a, b *State) (*State, bool) {
 	cB := ex.ctx.AndN(b.pc[k:])
 	if cA.Op == OConst {
 		// a's condition is 'true' relative to the prefix: b must be infeasible or identical; do not merge
-		return nil, false
+		return nil, "r3"
 	}
 	ns := *a
 	// frames
@@ -221,34 +232,46 @@ func (ex *Exec) mergePair(a, b *State) (*State, bool) {
 	for ti := range a.threads {
 		ta, tb := a.threads[ti], b.threads[ti]
 		if len(ta.stack) != len(tb.stack) || ta.done != tb.done || ta.blocked != tb.blocked {
-			return nil, false
+			return nil, "r4"
 		}
 		nt := *ta
 		nt.stack = make([]*Frame, len(ta.stack))
 		for fi := range ta.stack {
 			fa, fb := ta.stack[fi], tb.stack[fi]
 			if len(fa.defers) != len(fb.defers) {
-				return nil, false
+				return nil, "r5"
 			}
 			for di := range fa.defers {
 				if !sameValue(fa.defers[di].fn, fb.defers[di].fn) || len(fa.defers[di].args) != len(fb.defers[di].args) {
-					return nil, false
+					return nil, "r6"
 				}
 				for ai := range fa.defers[di].args {
 					if !sameValue(fa.defers[di].args[ai], fb.defers[di].args[ai]) {
-						return nil, false
+						return nil, "r7"
 					}
 				}
 			}
 			nf := *fa
 			var nl []Value
+			// liveness: for the top frame at its current point; for caller frames just
+			// before the pending call's successor (the call result itself is live-in there)
+			lip := fa.ip
+			live := ex.p.liveAt(fa.fn, fa.block, lip)
 			for i := range fa.locals {
 				if sameValue(fa.locals[i], fb.locals[i]) {
 					continue
 				}
+				if !bsHas(live, i) && !(fi < len(ta.stack)-1 && fa.ip < len(fa.block.Instrs) && ex.p.info(fa.fn).slotOfInstr(fa.block.Instrs[fa.ip]) == i) {
+					if nl == nil {
+						nl = make([]Value, len(fa.locals))
+						copy(nl, fa.locals)
+					}
+					nl[i] = nil
+					continue
+				}
 				m, ok := ex.mergeValue(cA, fa.locals[i], fb.locals[i])
 				if !ok {
-					return nil, false
+					return nil, "r8"
 				}
 				if nl == nil {
 					nl = make([]Value, len(fa.locals))
@@ -289,7 +312,7 @@ func (ex *Exec) mergePair(a, b *State) (*State, bool) {
 		}
 		m, ok := ex.mergeHeapVal(cA, va, vb)
 		if !ok {
-			return nil, false
+			return nil, "r9"
 		}
 		nh[obj] = m
 	}
@@ -300,7 +323,7 @@ func (ex *Exec) mergePair(a, b *State) (*State, bool) {
 		if base, okb := ex.p.baseHeap[obj]; okb {
 			m, ok := ex.mergeHeapVal(cA, base, vb)
 			if !ok {
-				return nil, false
+				return nil, "r10"
 			}
 			nh[obj] = m
 		} else {
@@ -313,18 +336,18 @@ func (ex *Exec) mergePair(a, b *State) (*State, bool) {
 	}
 	// stub state
 	if len(a.stub) != len(b.stub) {
-		return nil, false
+		return nil, "r11"
 	}
 	if len(a.stub) > 0 {
 		nstub := map[string]Value{}
 		for k2, va := range a.stub {
 			vb, ok := b.stub[k2]
 			if !ok {
-				return nil, false
+				return nil, "r12"
 			}
 			m, ok := ex.mergeHeapVal(cA, va, vb)
 			if !ok {
-				return nil, false
+				return nil, "r13"
 			}
 			nstub[k2] = m
 		}
@@ -336,7 +359,7 @@ func (ex *Exec) mergePair(a, b *State) (*State, bool) {
 	if b.steps > ns.steps {
 		ns.steps = b.steps
 	}
-	return &ns, true
+	return &ns, ""
 }
 
 func unionStr(a, b []string) []string {
